@@ -533,8 +533,11 @@ static inline struct ubuf *ubuf_block_splice(struct ubuf *ubuf, int offset,
                                              int size)
 {
     struct ubuf *new_ubuf;
+    struct ubuf_block *head_block = ubuf_block_from_ubuf(ubuf);
     if (unlikely(ubuf->mgr->signature != UBUF_ALLOC_BLOCK ||
                  (ubuf = ubuf_block_get(ubuf, &offset, &size)) == NULL ||
+                 size < 0 || head_block->cached_offset + offset + size >
+                             head_block->total_size ||
                  !ubase_check(ubuf_control(ubuf, UBUF_SPLICE_BLOCK,
                                            &new_ubuf, offset, size))))
         return NULL;
